@@ -137,6 +137,19 @@ CLAIMED = {
         note="The metaschemas are regenerated from /repo/jsonschema/schemas on every run, so a change to a bundled metaschema "
              "changes both sides consistently; the calibration against the official suite in setup guards the semantics.",
         design="5 C11"),
+    "C14": dict(
+        technique="TLA+ Pointer module (RFC 6901 + RFC 3986 fragment encoding); TLC pointer-walk machine MC_C14 over hostile "
+                  "documents (round-trip and clean-failure invariants), exports replayed into resolve_fragment and $ref "
+                  "validation; random documents/fragments and edit-then-resolve histories trace-validated (Trace_C14)",
+        text="Escaping, percent-encoding, token splitting, index syntax and evaluation are specified in TLA+; TLC checks on "
+             "every location of the hostile documents that FragmentOf and ResolveFragment are inverse and that every "
+             "failing token fails, and exports (fragment, expected value | failure) for every location and every failing "
+             "step; each is replayed through RefResolver.resolve_fragment (one resolver object reused for the whole run) "
+             "and, for leaf schemas, through validation of a $ref in four drafts. Random documents and fragments "
+             "(including mis-escaped ones, which TLC classifies) and documents edited in place between two resolutions "
+             "are judged record by record.",
+        note="Fragments that are not well-formed percent-encoded JSON Pointers are outside RFC 6901 and are skipped (counted).",
+        design="5 C14"),
 }
 
 PENDING_REASON = "check not built yet in this round (framework under construction; DESIGN.md section 8 build order)"
